@@ -383,9 +383,13 @@ func specs(c *runner.Ctx) []spec {
 			spec{space: "in(quoted options) then date(quoted separator)", rule: "in=('2024/01/02'/'2024/01/03'/x),date='/'",
 				rec: strRec(func(s string) bool { return lang.In(s, inOpts) && dateRe.MatchString(s) }), gen: vals},
 			spec{space: "in(quoted options) then re", rule: "in=('a/b'/required/'2024/01/02'),re='^[a-z/]+$'",
-				rec: strRec(func(s string) bool { return lang.In(s, lang.Options("'a/b'/required/'2024/01/02'")) && regexp.MustCompile(`^[a-z/]+$`).MatchString(s) }), gen: vals},
+				rec: strRec(func(s string) bool {
+					return lang.In(s, lang.Options("'a/b'/required/'2024/01/02'")) && regexp.MustCompile(`^[a-z/]+$`).MatchString(s)
+				}), gen: vals},
 			spec{space: "include(quoted option) then in(quoted options)", rule: "include=('a/b'),in=('a/b'/'xa/bx'/'2024/01/02')",
-				rec: strRec(func(s string) bool { return strings.Contains(s, "a/b") && lang.In(s, lang.Options("'a/b'/'xa/bx'/'2024/01/02'")) }),
+				rec: strRec(func(s string) bool {
+					return strings.Contains(s, "a/b") && lang.In(s, lang.Options("'a/b'/'xa/bx'/'2024/01/02'"))
+				}),
 				gen: genList("a/b", "xa/bx", "2024/01/02", "a", "xa/b", "'a/b'")})
 	}
 	// quoted options that end in a backslash (Windows paths): the backslash is an ordinary character, the quote closes
@@ -494,6 +498,13 @@ func specs(c *runner.Ctx) []spec {
 	for _, a := range []string{"http://", "/usr/", "/", "a/b", "//", "a/"} {
 		a := a
 		vals := genList("http://x", "http:x", "http:/x", "/usr/bin", "usr", "/usr", "usr/", "/", "a/b", "a/bx", "xa/b", "bx", "ax", "a", "b", "//", "x//", "a/", "xa/", "a")
+		out = append(out, spec{space: "prefix " + a, rule: "prefix=" + a, rec: strRec(func(s string) bool { return strings.HasPrefix(s, a) }), gen: vals})
+		out = append(out, spec{space: "suffix " + a, rule: "suffix=" + a, rec: strRec(func(s string) bool { return strings.HasSuffix(s, a) }), gen: vals})
+	}
+	// options that start or end with a blank: the blank is part of the literal
+	for _, a := range []string{"Re: ", " kg", " ", "a ", " a"} {
+		a := a
+		vals := genList("Re: topic", "Re:topic", "Re: ", "Re:", "10 kg", "10kg", " kg", "kg", " x", "x", " ", "a b", "a ", "ab", "a", " a", "b a", "ba", "x ")
 		out = append(out, spec{space: "prefix " + a, rule: "prefix=" + a, rec: strRec(func(s string) bool { return strings.HasPrefix(s, a) }), gen: vals})
 		out = append(out, spec{space: "suffix " + a, rule: "suffix=" + a, rec: strRec(func(s string) bool { return strings.HasSuffix(s, a) }), gen: vals})
 	}
@@ -609,6 +620,9 @@ func run(c *runner.Ctx) {
 			} else if c.Index()%4 == 0 {
 				// (a quarter of the values also right after a call that shadowed the built-in names for itself)
 				cars = append(cars, carrier.StructTagLocalFn, carrier.VarLocalFn)
+			} else if c.Index()%4 == 1 {
+				// (another quarter right after a call that replaced the field's rule for itself)
+				cars = append(cars, carrier.StructTagHist)
 			}
 			if v.Kind() == reflect.Bool {
 				cars = cars[1:] // Var(bool) is a separate question (C03)
